@@ -404,6 +404,9 @@ func (L *Loader) resolveType(pkg *types.Package, s string) (types.Type, error) {
 
 // isLocalName: name is declared as a local variable somewhere in fn's source.
 func (L *Loader) isLocalName(fn *ssa.Function, name string) bool {
+	if name == "rangeindex" {
+		return true // the hidden index of a range loop: defined where its loop head dominates
+	}
 	syn := fn.Syntax()
 	if syn == nil {
 		return false
